@@ -142,6 +142,14 @@ def fam_c17(tier, seed):
         plans.append((combo, [], [T * MS - 300_000]))
     if tier == "quick":
         plans = _sample(rng, plans, 300)
+    # n back-to-back unblocks against n or n+1 parked receivers (exactly n are released)
+    for combo in (("recv", "recv"), ("recv", "recv", "recv"), ("recv", "timedloop"), ("timedloop", "timedloop"), ("iter", "recv", "timedloop")):
+        for nu in (2, 3):
+            if nu > len(combo):
+                continue
+            for ut in (0, 3 * MS, T * MS // 2):
+                plans.append((combo, ("burst", ut, nu), []))
+                plans.append((combo, ("burst", ut, nu), [ut]))
     # a timed receiver that is woken several times for requests which pollers take first
     for combo in (("timed1", "trypoll"), ("timed1", "trypoll", "trypoll"), ("timedloop", "trypoll"), ("recv", "timed1", "trypoll")):
         for pts in ([T * MS // 4, T * MS // 2], [T * MS // 5, 2 * T * MS // 5, 3 * T * MS // 5], [T * MS // 2, T * MS // 2 + 300_000]):
@@ -167,9 +175,14 @@ def fam_c17(tier, seed):
         scs.append(sc)
     for k, (combo, uts, pts) in enumerate(plans):
         apps = [recvs[r]() for r in combo]
-        # one unblocker thread per distinct instant (they never receive)
-        for ut in uts:
-            apps.append(unblocker(ut, 1))
+        if isinstance(uts, tuple) and uts and uts[0] == "burst":
+            # one thread issuing all the unblocks back to back
+            apps.append(unblocker(uts[1], uts[2]))
+            uts = [uts[1]] * uts[2]
+        else:
+            # one unblocker thread per distinct instant (they never receive)
+            for ut in uts:
+                apps.append(unblocker(ut, 1))
         cc = [simple_conn(c, 1, at_ns=t) for c, t in enumerate(pts)]
         sc = scenario("C17-%04d" % k, "C17", cc, apps, horizon_ms=6 * T + 20, single=False)
         sc["tags"] = ["queue", "unblock:%d" % len(uts), "recv:" + "+".join(combo)]
@@ -456,9 +469,11 @@ def fam_c03(tier, seed):
     programs = [("one", [1]), ("seven", [7]), ("kib", [1024]), ("huge", [200000]), ("mixed", [1, 1023, 2, 4096, 3])]
     for tag, kw in _body_variants("thorough"):
         for ptag, sizes in programs:
-            if tier == "quick" and kw["body_len"] > 6000 and ptag in ("one", "seven"):
+            # (a program of tiny reads over a body of tens of KiB is tens of thousands of events per
+            #  execution: the tiny-read programs are crossed with bodies up to 5000 bytes only)
+            if kw["body_len"] > 6000 and ptag in ("one", "seven"):
                 continue
-            if tier == "quick" and ptag == "one" and kw["body_len"] > 1100:
+            if ptag == "one" and kw["body_len"] > (1100 if tier == "quick" else 5000):
                 continue
             for follow, both, case in itertools.product(["none", "request", "garbage"], [False, True], ["std", "lower", "upper"]):
                 if both and kw["framing"] != "chunked":
@@ -644,7 +659,9 @@ def fam_c16(tier, seed):
             heads.append(("ws-before-colon:%s:%r" % (hname, ws), "GET @URL@ HTTP/1.1\r\nHost: x\r\n%s%s: %s\r\n\r\n" % (hname, ws, hval), "name-ws"))
             heads.append(("ws-first-header:%s:%r" % (hname, ws), "GET @URL@ HTTP/1.1\r\n%s%s: %s\r\nHost: x\r\n\r\n" % (ws, hname, hval), "leading-ws"))
     for tag, val in (("empty", ""), ("plus", "+5"), ("minus", "-5"), ("digits-alpha", "5a"), ("alpha-digits", "a5"), ("list", "5, 5"),
-                     ("spaces", "5 5"), ("hex", "0x10"), ("overflow", "9" * 25), ("alpha", "abc"), ("float", "5.0")):
+                     ("spaces", "5 5"), ("hex", "0x10"), ("overflow", "9" * 25), ("alpha", "abc"), ("float", "5.0"),
+                     ("overflow-by-one", "18446744073709551616"), ("overflow-wraps-to-5", "18446744073709551621"),
+                     ("overflow-20-digits", "99999999999999999999"), ("overflow-21-digits", "184467440737095516160")):
         heads.append(("cl-" + tag, "POST @URL@ HTTP/1.1\r\nHost: x\r\nContent-Length: %s\r\n\r\n" % val, "bad-content-length"))
     scs = []
     k = 0
@@ -998,6 +1015,29 @@ def fam_c14(tier, seed):
             sc["d2only"] = True
             scs.append(sc)
             k += 1
+    # headers the library itself interprets (when parsing or when answering), with odd values
+    odd = ["", ";", ";q", ";q=", "q=", ",", ",,,", ";;;", "chunked;", "chunked;q", "chunked; q=", "x;q=1e400", "x;q=-0", "x;q=NaN",
+           "a" * 5000, "\"", "=", " ", "chunked,", ",chunked", "identity;q=0.0000000000000000000001", "x;y;z;q;=", "\t", "100-continue;", "%00"]
+    for hname in ("TE", "Expect", "Connection", "Transfer-Encoding", "Upgrade", "Content-Type", "Accept", "Host", "Content-Encoding"):
+        for val in odd:
+            if tier == "quick" and rng.random() > 0.45 and hname not in ("TE",):
+                continue
+            for h in ("none-respond", "none-drop"):
+                if h == "none-drop" and rng.random() > 0.4:
+                    continue
+                raw = ("GET @URL@ HTTP/1.1\r\nHost: x\r\n%s: %s\r\n\r\n" % (hname, val)).encode("latin1")
+                mm = Msg(cls="close", why="C14", raw_head=raw, plan=handlers[h]())
+                d, j, ln = conn([mm], 0)
+                # whatever the class of this head is, C14 only asks for no panic / abort / huge allocation;
+                # the request, if delivered, is answered according to its plan
+                d["msgs"][0]["plan"] = handlers[h]()
+                d["prog"] = [{"op": "send", "to": ln}, {"op": "sleep", "ns": 20 * MS}, {"op": "close"}]
+                sc = scenario("C14-%04d" % k, "C14", [(d, j, ln)], [serve("recv", "spawn")], horizon_ms=100, transport="tcp")
+                sc["tags"] = ["adversarial", "interpreted-header:%s" % hname, "value:%r" % val[:20], h]
+                sc["d2only"] = True
+                sc["judge"]["resonly"] = True
+                scs.append(sc)
+                k += 1
     # many headers / long lines / odd bytes at head positions / truncation
     heads = []
     for n in (0, 100, 5000):
